@@ -415,7 +415,8 @@ func (cat *catalog) rebuildChain(parts []string) (analysis.Analyzer, error) {
 var termVectors = index.IndexField | index.IncludeTermVectors
 
 func isExpanding(filter string) bool {
-	for _, p := range []string{"c19_ngram", "c19_edge", "c19_shingle", "c19_compound", "c19_hierarchy", "c19_cjk_bigram_unigram", "cjk_bigram"} {
+	// camelCase is quadratic in the token length, so it counts too (after hierarchy it would see very long tokens)
+	for _, p := range []string{"c19_ngram", "c19_edge", "c19_shingle", "c19_compound", "c19_hierarchy", "c19_cjk_bigram_unigram", "cjk_bigram", "camelCase"} {
 		if strings.HasPrefix(filter, p) {
 			return true
 		}
